@@ -337,6 +337,85 @@ func (w *World) scanFreed(sl *SLock) []string {
 	return bad
 }
 
+// scanCommandPools: every pooled command object (the server-wide pool, and the free lists of every open
+// connection and of the given in-memory endpoints) is pooled once, and none of them is the command of a
+// hold or of a queued request: an object that is pooled twice is handed to two requests at once, one that
+// is pooled while in use is overwritten under the request that owns it.
+func (w *World) scanCommandPools(n *Node, mems []*MemWaiterServerProtocol) []string {
+	var bad []string
+	sl := n.sl
+	seen := map[*protocol.LockCommand]string{}
+	note := func(c *protocol.LockCommand, where string) {
+		if c == nil {
+			return
+		}
+		if prev, ok := seen[c]; ok {
+			bad = append(bad, fmt.Sprintf("command object %p is in %s and in %s", c, prev, where))
+			return
+		}
+		seen[c] = where
+	}
+	queue := func(q *LockCommandQueue, where string) {
+		if q == nil {
+			return
+		}
+		for i := range q.IterNodes() {
+			for _, c := range q.IterNodeQueues(int32(i)) {
+				note(c, where)
+			}
+		}
+	}
+	queue(sl.freeLockCommandQueue, "the server-wide pool")
+	ci := 0
+	if n.srv != nil {
+		for st := n.srv.streams; st != nil; st = st.nextStream {
+			ci++
+			switch p := st.protocol.(type) {
+			case *BinaryServerProtocol:
+				for i := 0; i < p.freeCommandIndex && i < len(p.freeCommands); i++ {
+					note(p.freeCommands[i], fmt.Sprintf("the free list of connection %d", ci))
+				}
+				queue(p.lockedFreeCommands, fmt.Sprintf("the locked free list of connection %d", ci))
+			case *TextServerProtocol:
+				for i := 0; i < p.freeCommandIndex && i < len(p.freeCommands); i++ {
+					note(p.freeCommands[i], fmt.Sprintf("the free list of text connection %d", ci))
+				}
+				queue(p.lockedFreeCommands, fmt.Sprintf("the locked free list of text connection %d", ci))
+			}
+		}
+	}
+	for i, p := range mems {
+		if p == nil || p.closed {
+			continue
+		}
+		for j := 0; j < p.freeCommandIndex && j < len(p.freeCommands); j++ {
+			note(p.freeCommands[j], fmt.Sprintf("the free list of in-memory endpoint %d", i))
+		}
+		queue(p.lockedFreeCommands, fmt.Sprintf("the locked free list of in-memory endpoint %d", i))
+	}
+	for dbi, db := range sl.dbs {
+		if db == nil {
+			continue
+		}
+		for _, m := range allManagers(db) {
+			if m.refCount == 0xffffffff {
+				continue
+			}
+			for _, l := range holdersOf(m) {
+				if where, ok := seen[l.command]; ok && l.command != nil {
+					bad = append(bad, fmt.Sprintf("db%d key %x: the command of a hold (LockId %x) is in %s", dbi, m.lockKey, l.command.LockId[:3], where))
+				}
+			}
+			for _, l := range waitersOf(m) {
+				if where, ok := seen[l.command]; ok && l.command != nil {
+					bad = append(bad, fmt.Sprintf("db%d key %x: the command of a queued request (LockId %x) is in %s", dbi, m.lockKey, l.command.LockId[:3], where))
+				}
+			}
+		}
+	}
+	return bad
+}
+
 // ---------------------------------------------------------------------------------------------
 // generator
 
